@@ -200,7 +200,11 @@ pub fn finalize(
     // Ensure the filtered stream is flushed before any reads from it (e.g., commit-map fallback)
     let _ = filt_file.flush();
 
-    let refs: Vec<(Vec<u8>, Vec<u8>)> = ref_renames.into_iter().collect();
+    // A rename rule that maps a name to itself (e.g. --tag-rename v:v) renames nothing.
+    let refs: Vec<(Vec<u8>, Vec<u8>)> = ref_renames
+        .into_iter()
+        .filter(|(old, new_)| old != new_)
+        .collect();
     if !refs.is_empty() {
         let mut f = File::create(debug_dir.join("ref-map"))?;
         for (old, new_) in &refs {
